@@ -2126,7 +2126,7 @@ fn emit_load_from_high_mem(exec: &mut [u8], memory_base: usize) -> usize {
 }
 
 fn emit_push(source: X86Reg16, memory_base: usize, exec: &mut [u8]) -> usize {
-  let fn_pointer = address_as_bytes(crate::mem::memory_write_word as u64);
+  let fn_pointer = address_as_bytes(crate::mem::memory_push_word as u64);
   let memory_pointer = address_as_bytes(memory_base as u64);
   let load_source_bytes = match source {
     X86Reg16::AX => (0x89, 0xc2, 0x90),
